@@ -2,7 +2,7 @@
 // Registry harness (engine E): every registered operation x argument shapes x value category of every argument,
 // instantiated with the instrumented element type of C05_common.hpp.  This TU: main + fcppt::algorithm and
 // fcppt::container entries.  Other modules: C05_grid_tree.cpp, C05_optional.cpp, C05_either_variant.cpp,
-// C05_record_tuple.cpp, C05_array.cpp, C05_options.cpp, C05_parse.cpp.  Move-only instantiations: compile probes C05_probe_mo.cpp.
+// C05_record_tuple.cpp, C05_array.cpp, C05_nested.cpp (fcppt containers as vector elements), C05_assoc.cpp (join of maps/sets), C05_options.cpp, C05_parse.cpp.  Move-only instantiations: compile probes C05_probe_mo.cpp.
 #include "C05_common.hpp"
 
 #include <fcppt/loop.hpp>
@@ -617,5 +617,7 @@ int main(int argc, char **argv)
   c05::register_array_shards();
   c05::register_options_shards();
   c05::register_parse_shards();
+  c05::register_nested_shards();
+  c05::register_assoc_shards();
   return vrt::run(argc, argv);
 }
